@@ -1,6 +1,7 @@
 package symex
 
 import (
+	"go/token"
 	"sort"
 	"fmt"
 	"go/types"
@@ -49,7 +50,7 @@ func (e *Engine) atLoopHeader(st *State, li *loopInfo) (bool, []*State) {
 		if lc == nil {
 			panic(unsupported(fmt.Sprintf("loop %d of %s has no contract", li.ordinal, fr.fn.Name())))
 		}
-		env := e.funcEnv(st)
+		env := e.bindRange(e.funcEnv(st), st, li)
 		st.label(fmt.Sprintf("loop%d:back", li.ordinal))
 		for _, inv := range lc.Invariants {
 			if !e.wantClause(inv.Props) {
@@ -82,18 +83,20 @@ func (e *Engine) atLoopHeader(st *State, li *loopInfo) (bool, []*State) {
 				} else if c, ok := bo.Y.(*ssa.Const); ok {
 					fr.lets["$n"] = e.constValue(c)
 				}
+				fr.lets[fmt.Sprintf("$n#%d", li.ordinal)] = fr.lets["$n"]
 			}
 			for _, in := range li.header.Succs[0].Instrs {
 				if ia, ok := in.(*ssa.IndexAddr); ok {
 					if v, ok := fr.regs[ia.X]; ok {
 						fr.lets["$s"] = v
+						fr.lets[fmt.Sprintf("$s#%d", li.ordinal)] = v
 						break
 					}
 				}
 			}
 		}
 	}
-	env := e.funcEnv(st)
+	env := e.bindRange(e.funcEnv(st), st, li)
 	for _, l := range lc.Lets {
 		fr.lets[l.Name] = e.eval(env, l.Expr)
 		env.vars[l.Name] = fr.lets[l.Name]
@@ -139,11 +142,11 @@ func (e *Engine) atLoopHeader(st *State, li *loopInfo) (bool, []*State) {
 			st.assume(e.frameFormula(st, frameHeaps))
 		}
 	}
-	env = e.funcEnv(st)
+	env = e.bindRange(e.funcEnv(st), st, li)
 	for _, h := range lc.Havoc {
 		e.havocTarget(st, env, h, false)
 	}
-	env = e.funcEnv(st)
+	env = e.bindRange(e.funcEnv(st), st, li)
 	var assumed []*smt.Term
 	for _, inv := range lc.Invariants {
 		assumed = append(assumed, e.evalBool(env, inv.Expr))
@@ -159,7 +162,7 @@ func (e *Engine) atLoopHeader(st *State, li *loopInfo) (bool, []*State) {
 		for _, a := range assumed {
 			su.assume(a)
 		}
-		uenv := e.funcEnv(su)
+		uenv := e.bindRange(e.funcEnv(su), su, li)
 		for _, u := range lc.Uses {
 			ut := e.evalBool(uenv, u)
 			assumed = append(assumed, ut)
@@ -179,7 +182,7 @@ func (e *Engine) atLoopHeader(st *State, li *loopInfo) (bool, []*State) {
 		svi, isInt := sv.(IntV)
 		for _, valN := range lc.SplitVals {
 			s2 := st.clone()
-			env2 := e.funcEnv(s2)
+			env2 := e.bindRange(e.funcEnv(s2), s2, li)
 			v := e.eval(env2, valN)
 			c := e.valueEq(sv, v, false)
 			covered = append(covered, c)
@@ -223,6 +226,33 @@ func (e *Engine) atLoopHeader(st *State, li *loopInfo) (bool, []*State) {
 	}
 	e.propagateEqualities(st)
 	return true, []*State{st}
+}
+
+// bindRange makes $k, $n and $s denote the hidden index, length and slice of THIS range loop (loops nest).
+func (e *Engine) bindRange(env *Env, st *State, li *loopInfo) *Env {
+	if li.header.Comment != "rangeindex.loop" {
+		return env
+	}
+	fr := st.fr
+	if v, ok := fr.lets[fmt.Sprintf("$n#%d", li.ordinal)]; ok {
+		env.vars["$n"] = v
+	}
+	if v, ok := fr.lets[fmt.Sprintf("$s#%d", li.ordinal)]; ok {
+		env.vars["$s"] = v
+	}
+	for _, in := range li.header.Instrs {
+		if u, ok := in.(*ssa.UnOp); ok && u.Op == token.MUL {
+			if a, ok := u.X.(*ssa.Alloc); ok && a.Comment == "rangeindex" {
+				if c, ok := fr.cells[a]; ok {
+					if v, ok := st.cellVals[c]; ok {
+						env.vars["$k"] = v
+					}
+				}
+				break
+			}
+		}
+	}
+	return env
 }
 
 func shortSplit(s string) string {
@@ -314,6 +344,30 @@ func (e *Engine) havocLoop(st *State, li *loopInfo) {
 					}
 				}
 			}
+		}
+	}
+	// mutable ghost variables updated by annotated calls in the body
+	if fr.parent == nil && e.cur != nil && e.cur.fc != nil && len(e.cur.fc.GhostVars) > 0 {
+		setNames := map[string]bool{}
+		for _, ci := range callInstrs {
+			var cc *ssa.CallCommon
+			switch x := ci.(type) {
+			case *ssa.Call:
+				cc = x.Common()
+			case *ssa.Defer:
+				cc = x.Common()
+			}
+			if cc == nil {
+				continue
+			}
+			if ann := e.callAnnotation(st, ci, callName(cc)); ann != nil {
+				for _, l := range ann.Sets {
+					setNames[l.Name] = true
+				}
+			}
+		}
+		for _, name := range smt.SortedKeys(setNames) {
+			fr.ghost[name] = IntV{smt.Fresh("ghost_"+name, smt.Int)} // a mathematical integer: no machine range
 		}
 	}
 	if havocEverything {
